@@ -273,3 +273,18 @@ def cross2(cls, a=None, b=None, tag='x2'):
 
 def cross3(cls, a, b, c, tag='x3'):
     return cross(cls, [tuple(a), tuple(b), tuple(c)], tag)
+
+
+FOUR = (('X', 'SIX', 'S', 'X'), ('X', 'S', 'SIX', 'X'), ('X', 'S', 'S', 'X'), ('S', 'X', 'S', 'X'), ('SIX', 'S', 'X', 'S'),
+        ('X', 'X', 'S', 'S'), ('S', 'S', 'X', 'SIX'), ('X', 'SIX', 'S', 'SIX'), ('SIX', 'X', 'S', 'X'), ('S', 'SIX', 'X', 'S'),
+        ('X', 'S', 'X', 'S'), ('SIX', 'S', 'S', 'X'), ('X', 'SIX', 'SIX', 'S'), ('S', 'X', 'SIX', 'S'))
+
+
+def four(cls, full=False):
+    """four requesters on one lock (two or more waiters queued behind a holder)"""
+    combos = list(itertools.product(MODES, repeat=4)) if full else FOUR
+    out = []
+    for combo in combos:
+        g = G()
+        out.append('P %s_x4_%s %s | %s %s' % (cls, '-'.join(combo), cls, ' | '.join(script(m, g) for m in combo), fin(cls)))
+    return out
